@@ -4,6 +4,7 @@ use serde_json::Value;
 
 use super::l2common::*;
 use crate::driver::*;
+use crate::model::*;
 use crate::tape::Tape;
 
 pub struct Offsets;
@@ -21,6 +22,15 @@ impl Prop for Offsets {
         gen_l2_case(t, false)
     }
     fn judge(&self, c: &Case) -> Outcome {
+        judge_offsets(c)
+    }
+    fn show(&self, c: &Case) -> Value {
+        show_case(c)
+    }
+}
+
+fn judge_offsets(c: &Case) -> Outcome {
+    {
         let st = features(&c.prog, c.w);
         let mut run = match run_l2(&c.prog, c.w, Which::Offsets) {
             Ok(r) => r,
@@ -65,16 +75,120 @@ impl Prop for Offsets {
         }
         o.class(&format!("probes:{}", match run.out.probes.len() { 0 => "0", 1..=9 => "1-9", 10..=49 => "10-49", _ => "50+" }))
     }
+}
+
+// ------------------------------------------------------------ chains that share one table pointer
+
+/// Hierarchies of three to five levels over a root with a vftable, in which a level may put a member or a gap
+/// in front of its base and may or may not restate (and extend) the table.
+pub struct SharedPointerChains;
+
+fn chain_case(t: &mut Tape) -> Case {
+    let w: u64 = if t.chance(1, 2) { 8 } else { 4 };
+    let word = if w == 8 { "u64" } else { "u32" };
+    let vf = |name: String, konst: bool, arg: bool| Func {
+        sty: 0,
+        more: vec![],
+        vis: true,
+        name,
+        doc: vec![],
+        args: {
+            let mut a = vec![if konst { Arg::ConstSelf } else { Arg::MutSelf }];
+            if arg {
+                a.push(Arg::Named("x".into(), Ty::n("u32")));
+            }
+            a
+        },
+        ret: None,
+        addr: None,
+        index: None,
+        cc: None,
+    };
+    let mut table: Vec<Func> = (0..1 + t.below(3)).map(|i| vf(format!("v{i}"), t.chance(1, 2), t.chance(1, 2))).collect();
+    let mut m = Mod {
+        path: vec!["m".into()],
+        ..Default::default()
+    };
+    let mut root_fields = vec![];
+    for i in 0..t.below(3) {
+        root_fields.push(Field::new(&format!("r{i}"), Ty::n(word)));
+    }
+    m.items.push(Item::Type(TypeDef {
+        vis: true,
+        name: "L0".into(),
+        vft: Some(Vft { size: None, funcs: table.clone() }),
+        fields: root_fields,
+        ..Default::default()
+    }));
+    let depth = 2 + t.below(3);
+    for level in 1..=depth {
+        let mut fields = vec![];
+        // in front of the base: nothing, a member, or an unnamed gap (whole words, so that the base stays aligned)
+        match t.below(4) {
+            0 | 1 => {}
+            2 => fields.push(Field::new(&format!("pre{level}"), Ty::n(word))),
+            _ => fields.push(Field::new("_", Ty::Unk(w * (1 + t.below(3))))),
+        }
+        let mut b = Field::new(&format!("base{level}"), Ty::Named(format!("L{}", level - 1)));
+        b.base = true;
+        fields.push(b);
+        for i in 0..t.below(3) {
+            fields.push(Field::new(&format!("f{level}_{i}"), Ty::n(word)));
+        }
+        // its own block: the inherited functions word for word, sometimes followed by new ones
+        let vft = if t.chance(1, 2) {
+            let mut block = table.clone();
+            for i in 0..t.below(2) {
+                block.push(vf(format!("n{level}_{i}"), t.chance(1, 2), false));
+            }
+            table = block.clone();
+            Some(Vft { size: None, funcs: block })
+        } else {
+            None
+        };
+        m.items.push(Item::Type(TypeDef {
+            vis: true,
+            name: format!("L{level}"),
+            vft,
+            fields,
+            ..Default::default()
+        }));
+    }
+    Case { prog: Prog { mods: vec![m] }, w }
+}
+
+impl Prop for SharedPointerChains {
+    type Case = Case;
+    crate::prog_shrink!();
+    fn name(&self) -> String {
+        "C01/shared-pointer-chains".into()
+    }
+    fn rule(&self) -> String {
+        "hierarchies of three to five levels over a root that declares a vftable: every further level has the previous one as its only base, in front of it nothing, a word-sized member or an unnamed gap of 1-3 words, behind it 0-2 word-sized members, all placed implicitly; half of the levels restate the inherited table word for word (sometimes with a new function), the others inherit it. Same oracle as C01/offsets (rustc's offset_of for every named field against the end of the preceding statement). Every case is non-trivial when it has a level whose base is not its first statement or a level with its own block".into()
+    }
+    fn gen(&self, t: &mut Tape) -> Case {
+        chain_case(t)
+    }
+    fn judge(&self, c: &Case) -> Outcome {
+        let behind = c.prog.mods[0].types().any(|td| td.fields.first().map(|f| !f.base).unwrap_or(false) && td.fields.iter().any(|f| f.base));
+        let o = judge_offsets(c);
+        if behind {
+            o.class("base-behind-member-or-gap")
+        } else {
+            o
+        }
+    }
     fn show(&self, c: &Case) -> Value {
         show_case(c)
     }
 }
 
 pub fn props() -> Vec<Box<dyn DynProp>> {
-    vec![Box::new(Offsets)]
+    vec![Box::new(Offsets), Box::new(SharedPointerChains)]
 }
 
 pub fn run(ctx: &mut Ctx) {
     let q = ctx.quick();
     ctx.run(&Offsets, &Params::new(if q { 4000 } else { 120_000 }, 200, 3000).shrink(120));
+    ctx.run(&SharedPointerChains, &Params::new(if q { 400 } else { 20_000 }, 50, 3000).shrink(120));
 }
